@@ -117,6 +117,16 @@ func Lock(delta int) {
 	}
 }
 
+// Quiet runs harness-only work (canonical rendering, hashing, record building) with the race detector's handling
+// of synchronisation events switched off for this goroutine: fmt, reflect and friends exchange pooled objects
+// (sync.Pool, sync.Map), and every such exchange between two tasks is a happens-before edge that the code under
+// test did not create - it would hide a real race between the library calls before and after it.
+func Quiet(f func()) {
+	hide()
+	defer unhide()
+	f()
+}
+
 func park(t *Task) {
 	hide()
 	t.yield <- struct{}{}
@@ -162,6 +172,9 @@ func (s *Sched) Run() error {
 			setTaskState(t, 0, true)
 			hide()
 			t.yield <- struct{}{}
+			// stay alive until the whole phase is over: the race detector finds a conflict with an access of a
+			// goroutine that has already exited far less reliably (its context may have been recycled)
+			<-t.resume
 			unhide()
 		}(t)
 	}
@@ -236,6 +249,11 @@ func (s *Sched) Run() error {
 		last = d.Task
 	}
 	setRunning(nil, 0)
+	for _, t := range s.Tasks { // let the finished tasks go
+		hide()
+		t.resume <- struct{}{}
+		unhide()
+	}
 	wg.Wait() // visible join: results written by tasks are read after this
 	return nil
 }
